@@ -631,6 +631,8 @@ def c01_reader(**p):
                 bl.append(v2000_bond_line(pos[u], pos[w], 1))
             rad_e = [(pos[a], mol.rad[a]) for a in order if mol.rad[a] is not None]
             iso_e = [(pos[a], mol.mass[a]) for a in order if mol.mass[a] is not None]
+            if p.get("descending_entries"):      # entries of one property line in descending atom order
+                rad_e, iso_e = sorted(rad_e, reverse=True), sorted(iso_e, reverse=True)
             if p.get("one_entry_per_line"):
                 pl = [v2000_prop_line("RAD", [e]) for e in rad_e] + [v2000_prop_line("ISO", [e]) for e in iso_e]
             else:
